@@ -216,7 +216,7 @@ Proof.
 Qed.
 End Zero.
 
-(* ---------- bundles of tables with and without rows ---------- *)
+(* ---------- bundles of tables with and without rows, with and without columns ---------- *)
 Section Whole0.
 Variable parse_float : str -> option ftok.
 Variable parse_dt : str -> dres.
@@ -236,16 +236,26 @@ Definition wf_zero (t : wtable) : Prop :=
   map strip (map wc_unit cols) = map wc_unit cols /\
   NoDup (map wc_name cols).
 
-(* a well-formed table with zero or more rows *)
-Definition wf_any (t : wtable) : Prop := wf_table parse_float parse_dt sep t \/ wf_zero t.
+(* a table without columns: name and destinations only *)
+Definition wf_empty (t : wtable) : Prop :=
+  w_cols t = [] /\ has sep (stars ++ w_name t) = false /\ has sep (join [32%N] (w_dests t)) = false /\
+  drop_last_star (w_name t) = (w_name t, false).
 
-(* a row-wise table without rows is written with one extra empty line *)
-Definition extra_blank (t : wtable) : bool := negb (w_transposed t) && Nat.eqb (n_rows (w_cols t)) 0.
-Definition core_rows (t : wtable) : list row :=
-  let rows := cells_of_lines sep (table_lines sep t) in if extra_blank t then removelast rows else rows.
+(* a well-formed table: rows and columns, columns only, or neither *)
+Definition wf_any (t : wtable) : Prop := wf_table parse_float parse_dt sep t \/ wf_zero t \/ wf_empty t.
+
+(* empty lines the writer puts after the table's own lines, before the block terminator:
+   "\n".join([]) = "" once for missing data rows, and for the missing name and unit lines *)
+Definition n_extra (t : wtable) : nat :=
+  match w_cols t with
+  | [] => if w_transposed t then 1 else 3
+  | _ => if negb (w_transposed t) && Nat.eqb (n_rows (w_cols t)) 0 then 1 else 0
+  end.
+Definition all_rows (t : wtable) : list row := cells_of_lines sep (table_lines sep t).
+Definition core_rows (t : wtable) : list row := firstn (length (all_rows t) - n_extra t) (all_rows t).
 Definition chunk3_of (t : wtable) : chunk3 row :=
   match core_rows t with
-  | r :: body => (r, body, if extra_blank t then 1 else 0)
+  | r :: body => (r, body, n_extra t)
   | [] => ([], [], 0)
   end.
 Definition plain_core (t : wtable) : Prop :=
@@ -254,53 +264,83 @@ Definition plain_core (t : wtable) : Prop :=
   | [] => False
   end.
 
-Lemma wf_table_rows_pos t : wf_table parse_float parse_dt sep t -> extra_blank t = false.
+Lemma firstn_app_drop {A} (x y : list A) : firstn (length (x ++ y) - length y) (x ++ y) = x.
 Proof.
-  intros (m & Hm & Hrect & Hc & _). unfold extra_blank. destruct (w_transposed t); [reflexivity|]. cbn [negb andb].
-  unfold n_rows. destruct (w_cols t) as [|c ?]; [congruence|]. inversion Hrect as [|? ? Hl ?]. rewrite Hl.
-  destruct m; [lia|reflexivity].
+  rewrite app_length. replace (length x + length y - length y) with (length x) by lia.
+  rewrite firstn_app, Nat.sub_diag, firstn_all. cbn. now rewrite app_nil_r.
 Qed.
 
-Lemma wf_zero_rows t : wf_zero t -> extra_blank t = negb (w_transposed t).
+(* the written lines are the table's block rows followed by n_extra blank rows; the block rows parse
+   back to the table *)
+Lemma rows_shape t : wf_any t ->
+  exists X, all_rows t = X ++ repeat blank_row (n_extra t) /\
+            parse_table parse_float parse_dt cfg X fx_init = Ok (table_read_back t).
 Proof.
-  intros (Hrect & Hc & _). unfold extra_blank. destruct (w_transposed t); [reflexivity|]. cbn [negb andb].
-  unfold n_rows. destruct (w_cols t) as [|c ?]; [congruence|]. inversion Hrect as [|? ? Hl ?]. now rewrite Hl.
-Qed.
-
-(* the rows of the block parse back to the table *)
-Theorem core_roundtrip t :
-  wf_any t -> parse_table parse_float parse_dt cfg (core_rows t) fx_init = Ok (table_read_back t).
-Proof.
-  intros [Hw|Hz]; unfold core_rows.
-  - rewrite (wf_table_rows_pos t Hw). now apply table_roundtrip.
-  - rewrite (wf_zero_rows t Hz). destruct t as [nm ds tr cols]. unfold wf_zero in Hz. unfold table_read_back.
+  intros [Hw|[Hz|He]].
+  - exists (all_rows t). split; [|now apply table_roundtrip].
+    destruct Hw as (m & Hm & Hrect & Hc & _). unfold n_extra. destruct (w_cols t) as [|c cs] eqn:Ec; [congruence|].
+    assert (negb (w_transposed t) && Nat.eqb (n_rows (c :: cs)) 0 = false) as ->.
+    { destruct (w_transposed t); [reflexivity|]. cbn [negb andb n_rows]. inversion Hrect as [|? ? Hl ?]. rewrite Hl.
+      destruct m; [lia|reflexivity]. }
+    cbn [repeat]. now rewrite app_nil_r.
+  - destruct t as [nm ds tr cols]. unfold wf_zero in Hz. unfold table_read_back, all_rows, n_extra.
     cbn [w_name w_dests w_transposed w_cols] in *.
     destruct Hz as (H1 & H2 & H3 & H4 & H5 & H6 & H7 & H8 & H9 & H10 & H11).
-    destruct tr; cbn [negb].
-    + apply (transposed_roundtrip0 parse_float parse_dt cfg sep nm ds cols); try assumption; reflexivity.
-    + rewrite (rowwise_cells0 sep nm ds cols) by assumption. rewrite removelast_last.
+    destruct cols as [|c cs] eqn:Ec; [congruence|]. rewrite <- Ec in *.
+    assert (Nat.eqb (n_rows cols) 0 = true) as Hn.
+    { rewrite Ec. cbn [n_rows]. rewrite Ec in H1. inversion H1 as [|? ? Hl ?]. now rewrite Hl. }
+    destruct tr; cbn [negb andb].
+    + eexists. split; [cbn [repeat]; now rewrite app_nil_r|].
+      apply (transposed_roundtrip0 parse_float parse_dt cfg sep nm ds cols); try assumption; reflexivity.
+    + rewrite Hn. eexists. split; [apply (rowwise_cells0 sep nm ds cols); assumption|].
       apply (rowwise_roundtrip0 parse_float parse_dt cfg sep nm ds cols); try assumption; reflexivity.
+  - destruct t as [nm ds tr cols]. unfold wf_empty in He. unfold table_read_back, all_rows, n_extra, cells_of_lines, table_lines.
+    cbn [w_name w_dests w_transposed w_cols] in *. destruct He as (-> & H3 & H4 & H7).
+    destruct tr; cbn [map n_rows join].
+    + assert (split_on sep (stars ++ nm ++ [42%N] ++ [sep]) = [stars ++ nm ++ [42%N]; []]) as ->.
+      { replace (stars ++ nm ++ [42%N] ++ [sep]) with ((stars ++ nm ++ [42%N]) ++ sep :: []) by (now rewrite <- !app_assoc).
+        rewrite split_app_sep; [reflexivity|]. rewrite app_assoc, has_app, H3. cbn.
+        pose proof H3 as Hs. rewrite has_app in Hs. apply orb_false_iff in Hs as [Hs _]. cbn in Hs.
+        apply orb_false_iff in Hs as [Hs _]. now rewrite Hs. }
+      rewrite (split_nosep _ _ H4). cbn [map split_on].
+      exists [[CStr (stars ++ nm ++ [42%N]); CStr []]; [CStr (join [32%N] ds)]]. split; [reflexivity|].
+      unfold ParseTable.parse_table. cbn [stars app skipn].
+      assert (drop_last_star (nm ++ [42%N]) = (nm, true)) as ->
+        by (unfold drop_last_star; rewrite rev_app_distr; cbn [rev app]; now rewrite rev_involutive).
+      reflexivity.
+    + rewrite split_line0 by exact H3. rewrite (split_nosep _ _ H4). cbn [map split_on].
+      exists [[CStr (stars ++ nm); CStr []]; [CStr (join [32%N] ds)]]. split; [reflexivity|].
+      unfold ParseTable.parse_table. cbn [stars app skipn]. rewrite H7. reflexivity.
 Qed.
 
-Lemma rows_split t : wf_any t ->
-  cells_of_lines sep (table_lines sep t) = core_rows t ++ repeat blank_row (if extra_blank t then 1 else 0).
+Lemma n_extra_blank_len t : length (repeat blank_row (n_extra t)) = n_extra t.
+Proof. apply repeat_length. Qed.
+
+Lemma core_rows_spec t X :
+  all_rows t = X ++ repeat blank_row (n_extra t) -> core_rows t = X.
 Proof.
-  intros [Hw|Hz]; unfold core_rows.
-  - rewrite (wf_table_rows_pos t Hw). cbn [repeat]. now rewrite app_nil_r.
-  - rewrite (wf_zero_rows t Hz). destruct t as [nm ds tr cols]. unfold wf_zero in Hz.
-    cbn [w_name w_dests w_transposed w_cols] in *.
-    destruct Hz as (H1 & H2 & H3 & H4 & H5 & H6 & _).
-    destruct tr; cbn [negb repeat]; [now rewrite app_nil_r|].
-    rewrite (rowwise_cells0 sep nm ds cols) by assumption. now rewrite removelast_last.
+  intro E. unfold core_rows. rewrite E. rewrite app_length, repeat_length.
+  replace (length X + n_extra t - n_extra t) with (length X) by lia.
+  rewrite firstn_app, Nat.sub_diag, firstn_all. cbn. now rewrite app_nil_r.
 Qed.
+
+Theorem core_roundtrip t :
+  wf_any t -> parse_table parse_float parse_dt cfg (core_rows t) fx_init = Ok (table_read_back t).
+Proof. intro H. destruct (rows_shape t H) as (X & E & P). now rewrite (core_rows_spec t X E). Qed.
+
+Lemma rows_split t : wf_any t -> all_rows t = core_rows t ++ repeat blank_row (n_extra t).
+Proof. intro H. destruct (rows_shape t H) as (X & E & _). now rewrite (core_rows_spec t X E). Qed.
+
+Lemma repeat_snoc {A} (x : A) k : repeat x k ++ [x] = x :: repeat x k.
+Proof. induction k; cbn; [reflexivity|]. now rewrite IHk. Qed.
 
 Lemma chunk3_rows_of t : wf_any t -> plain_core t ->
   cells_of_lines sep (table_lines sep t ++ [[]]) = chunk3_rows row blank_row (chunk3_of t).
 Proof.
-  intros Hw Hp. rewrite cells_app, (rows_split t Hw). unfold plain_core, chunk3_of in *.
+  intros Hw Hp. rewrite cells_app. fold (all_rows t). rewrite (rows_split t Hw). unfold plain_core, chunk3_of in *.
   destruct (core_rows t) as [|r body]; [contradiction|]. unfold chunk3_rows. cbn [fst snd].
   change (cells_of_lines sep [[]]) with [blank_row].
-  destruct (extra_blank t); cbn [repeat app]; rewrite <- ?app_assoc; reflexivity.
+  rewrite <- !app_assoc. cbn [app]. f_equal. f_equal. apply repeat_snoc.
 Qed.
 
 Lemma bundle_rows3 ts : Forall wf_any ts -> Forall plain_core ts ->
@@ -329,7 +369,7 @@ Proof.
   now rewrite IH.
 Qed.
 
-(* C01 in the model, zero-row tables included *)
+(* C01 in the model: any number of rows, any number of columns *)
 Theorem bundle_roundtrip_any ts :
   Forall wf_any ts -> Forall plain_core ts ->
   forallb (fun t => forallb no_lf (table_lines sep t)) ts = true ->
